@@ -75,14 +75,29 @@ def random_crystal(rng, molecular=False):
         sgc = rng.choice(SG_FOR[kind])
         sg = SpaceGroup(*sgc) if isinstance(sgc, tuple) else SpaceGroup(sgc)
         if molecular:
-            o = np.array([rng.uniform(0.15, 0.85) for _ in range(3)]) @ np.asarray(uc.direct)
-            Rm = _rot(rng)
-            cart = o + np.array([[0, 0, 0], [0.757, 0.586, 0.0], [-0.757, 0.586, 0.0]]) @ Rm
-            els = [Element[8], Element[1], Element[1]]
+            # one or two independent molecules (water, iodomethane: a heavy atom far from the centroid), sometimes a lone argon atom
+            TEMPLATES = {
+                "water": ([8, 1, 1], [[0, 0, 0], [0.757, 0.586, 0.0], [-0.757, 0.586, 0.0]]),
+                "iodomethane": ([53, 6, 1, 1, 1], [[2.14, 0, 0], [0, 0, 0], [-0.36, 1.03, 0.0], [-0.36, -0.51, 0.89], [-0.36, -0.51, -0.89]]),
+            }
+            names = [rng.choice(["water", "water", "iodomethane"]) for _ in range(rng.choice([1, 2, 2]))]
+            carts, els = [], []
+            for nm in names:
+                z, xyz = TEMPLATES[nm]
+                o = np.array([rng.uniform(0.1, 0.9) for _ in range(3)]) @ np.asarray(uc.direct)
+                carts.append(o + np.array(xyz) @ _rot(rng))
+                els += [Element[k] for k in z]
+            if rng.random() < 0.25:
+                carts.append((np.array([rng.uniform(0.1, 0.9) for _ in range(3)]) @ np.asarray(uc.direct))[None, :])
+                els.append(Element[18])
+                names = names + ["argon"]
+            cart = np.vstack(carts)
             c = Crystal(uc, sg, AsymmetricUnit(els, uc.to_fractional(cart)))
             try:
                 mols = c.symmetry_unique_molecules()
-                if len(mols) == 1 and len(mols[0]) == 3 and len(c.unit_cell_molecules()) == len(sg.symmetry_operations):
+                sizes = sorted(len(m) for m in mols)
+                want = sorted({"water": 3, "iodomethane": 5, "argon": 1}[nm] for nm in names)
+                if sizes == want and len(c.unit_cell_molecules()) == len(names) * len(sg.symmetry_operations):
                     return kind, c
             except Exception:  # noqa
                 continue
@@ -209,7 +224,23 @@ def check_environment(c, radius, group=None):
     I = np.linalg.inv(D)
     u = c.unit_cell_atoms()
     F = np.asarray(u["frac_pos"], dtype=float)
-    mol = c.symmetry_unique_molecules()[0]
+    mols = c.symmetry_unique_molecules()
+    if group is None and len(mols) > 1:
+        # every independent molecule, in both orders (an answer must not depend on which molecule was asked about before)
+        for order in (range(len(mols)), reversed(range(len(mols)))):
+            for k in order:
+                r = check_environment_of(c, mols[k], radius, D, I, u, F, f"molecule_environment(molecule {k})")
+                if r:
+                    return r
+        envs = c.molecule_environments(radius=radius)
+        for k, (m, e_, p_) in enumerate(envs):
+            r = compare_environment(c, np.asarray(m.positions), e_, p_, radius, I, u, F, f"molecule_environments()[{k}]")
+            if r:
+                return r
+        return None
+    mol = mols[0]
+    if group is not None:
+        group = [g for g in group if g < len(mol)] or [0]
     if group is None:
         centres = np.asarray(mol.positions)
         m2, els, pos = c.molecule_environment(mol, radius=radius)
@@ -238,6 +269,31 @@ def check_environment(c, radius, group=None):
         if int(els[k]) != int(u["element"][key[0]]):
             return name + ": element of a reported atom is wrong"
     return None
+
+
+def compare_environment(c, centres, els, pos, radius, I, u, F, name):
+    ref, margin, _ = brute(c, centres, radius)
+    if margin < 1e-6:
+        return None
+    central = {key_of(c, p, I, F) for p in centres}
+    ref = {k: d for k, d in ref.items() if k not in central}
+    keys = [key_of(c, p, I, F) for p in pos]
+    if None in keys:
+        return name + ": a reported position is not a periodic image of a unit-cell atom"
+    if len(set(keys)) != len(keys):
+        return name + ": duplicated atom"
+    if set(keys) != set(ref):
+        return (f"{name}(radius={radius:.4f}): {len(ref)} periodic images lie within the radius of the centre atoms (own atoms excluded), "
+                f"{len(keys)} reported; missing e.g. {sorted(set(ref) - set(keys))[:3]}")
+    for k, key in enumerate(keys):
+        if int(els[k]) != int(u["element"][key[0]]):
+            return name + ": element of a reported atom is wrong"
+    return None
+
+
+def check_environment_of(c, mol, radius, D, I, u, F, name):
+    m2, els, pos = c.molecule_environment(mol, radius=radius)
+    return compare_environment(c, np.asarray(mol.positions), els, pos, radius, I, u, F, name)
 
 
 # ---- correspondence --------------------------------------------------------------------
@@ -360,7 +416,7 @@ def judge(seed):
 
 
 def search(ctx, budget):
-    n = 120 if budget == "quick" else 1500
+    n = 240 if budget == "quick" else 2500
     for _ in range(n):
         seed = ctx.rng.randrange(1 << 30)
         tag, r, nontrivial = judge(seed)
